@@ -424,7 +424,7 @@ impl Property for C04 {
                 s
             },
         ];
-        let max_w = tier.pick(60usize, 160);
+        let max_w = tier.pick(120usize, 200);
         for s in &streams {
             for k in 0..=s.len() {
                 for phase in [Phase::Connect, Phase::Run] {
